@@ -31,6 +31,14 @@ def _test(p, subj, binds):
         return ast.Compare(left=S(), ops=[ast.Is()], comparators=[ast.Constant(value=p.value)])
     if isinstance(p, ast.MatchClass) and not p.patterns and not p.kwd_patterns:
         return ast.Call(func=ast.Name(id="isinstance", ctx=ast.Load()), args=[S(), p.cls], keywords=[])
+    if isinstance(p, ast.MatchClass) and not p.patterns and p.kwd_patterns \
+            and all(isinstance(q, ast.MatchAs) and q.pattern is None for q in p.kwd_patterns):
+        # case Cls(attr=name, other=_): an isinstance test plus bindings name = subject.attr (capture / wildcard sub-patterns only;
+        # the attribute reads cannot fail the match for a class that defines them)
+        for attr, q in zip(p.kwd_attrs, p.kwd_patterns):
+            if q.name is not None:
+                binds.append((q.name, ast.Attribute(value=S(), attr=attr, ctx=ast.Load())))
+        return ast.Call(func=ast.Name(id="isinstance", ctx=ast.Load()), args=[S(), p.cls], keywords=[])
     if isinstance(p, ast.MatchOr):
         parts = [_test(q, subj, binds) for q in p.patterns]
         if any(x is None for x in parts):
@@ -58,6 +66,10 @@ class _Desugar(ast.NodeTransformer):
         self.generic_visit(node)
         prelude = []
         subj = node.subject
+        if isinstance(subj, ast.NamedExpr) and isinstance(subj.target, ast.Name):
+            # match (name := value): the name is bound first, then matched
+            prelude.append(ast.Assign(targets=[ast.Name(id=subj.target.id, ctx=ast.Store())], value=subj.value))
+            subj = ast.Name(id=subj.target.id, ctx=ast.Load())
         if not _pure_subject(subj):
             self.n += 1
             tmp = f"match__subject{self.n}"
@@ -109,6 +121,10 @@ class _Desugar(ast.NodeTransformer):
                 first = first.operand
             elif isinstance(first, ast.Call) and first.args and isinstance(first.func, ast.Name):
                 first = first.args[0]
+            elif isinstance(first, ast.Call) and isinstance(first.func, ast.Attribute):
+                first = first.func.value      # (m := E).method(...): the receiver is evaluated first
+            elif isinstance(first, (ast.Attribute, ast.Subscript)):
+                first = first.value
             else:
                 break
         if isinstance(first, ast.NamedExpr) and isinstance(first.target, ast.Name):
@@ -137,6 +153,42 @@ def _dotted(e):
     return None
 
 
+class _GetterLocals(ast.NodeTransformer):
+    """evaluate = methodcaller("eval", a, b)  ...  map(evaluate, xs) / evaluate(x):  the local stands for the getter it was
+    bound to (once, in the same function); uses are rewritten as if the getter were written in place"""
+
+    GETTERS = ("methodcaller", "operator.methodcaller", "attrgetter", "operator.attrgetter", "itemgetter", "operator.itemgetter")
+
+    def visit_FunctionDef(self, node):
+        self.generic_visit(node)
+        stores = {}
+        for n in ast.walk(node):
+            if isinstance(n, ast.Name) and isinstance(n.ctx, ast.Store):
+                stores[n.id] = stores.get(n.id, 0) + 1
+        getters = {}
+        for st in node.body:
+            if isinstance(st, ast.Assign) and len(st.targets) == 1 and isinstance(st.targets[0], ast.Name) and stores.get(st.targets[0].id) == 1 \
+                    and isinstance(st.value, ast.Call) and _dotted(st.value.func) in self.GETTERS:
+                # the arguments of the getter must be names that are not re-bound afterwards (parameters)
+                argnames = {x.id for a in st.value.args for x in ast.walk(a) if isinstance(x, ast.Name)}
+                if all(stores.get(a, 0) == 0 for a in argnames):
+                    getters[st.targets[0].id] = st.value
+        if not getters:
+            return node
+
+        class R(ast.NodeTransformer):
+            def visit_Name(self, n):
+                if isinstance(n.ctx, ast.Load) and n.id in getters:
+                    return copy.deepcopy(getters[n.id])
+                return n
+
+        node.body = [R().visit(st) if not (isinstance(st, ast.Assign) and len(st.targets) == 1 and isinstance(st.targets[0], ast.Name)
+                                          and st.targets[0].id in getters) else st for st in node.body]
+        node.body = [st for st in node.body if not (isinstance(st, ast.Assign) and len(st.targets) == 1 and isinstance(st.targets[0], ast.Name)
+                                                    and st.targets[0].id in getters)]
+        return node
+
+
 class _Functional(ast.NodeTransformer):
     """map / starmap / operator.attrgetter & co. spelled as the generator expressions they are:
         map(f, X)                      -> (f(v) for v in X)
@@ -156,8 +208,11 @@ class _Functional(ast.NodeTransformer):
         d = _dotted(f.func) if isinstance(f, ast.Call) else None
         V = lambda: ast.Name(id=v, ctx=ast.Load())  # noqa: E731
         if not star and d in ("attrgetter", "operator.attrgetter") and len(f.args) == 1 and isinstance(f.args[0], ast.Constant) \
-                and isinstance(f.args[0].value, str) and f.args[0].value.isidentifier():
-            return ast.Attribute(value=V(), attr=f.args[0].value, ctx=ast.Load())
+                and isinstance(f.args[0].value, str) and all(p_.isidentifier() for p_ in f.args[0].value.split(".")):
+            out = V()
+            for p_ in f.args[0].value.split("."):   # attrgetter("a.b") follows the dotted path
+                out = ast.Attribute(value=out, attr=p_, ctx=ast.Load())
+            return out
         if not star and d in ("itemgetter", "operator.itemgetter") and len(f.args) == 1:
             return ast.Subscript(value=V(), slice=f.args[0], ctx=ast.Load())
         if not star and d in ("methodcaller", "operator.methodcaller") and f.args and isinstance(f.args[0], ast.Constant) and isinstance(f.args[0].value, str):
@@ -174,6 +229,9 @@ class _Functional(ast.NodeTransformer):
 
             return R().visit(copy.deepcopy(f.body))
         if isinstance(f, (ast.Name, ast.Attribute)):
+            if star is not True and isinstance(star, int) and star >= 2:
+                # the iterable yields tuples of a known length (product / zip of n iterables): f(*v) == f(v[0], ..., v[n-1])
+                return ast.Call(func=f, args=[ast.Subscript(value=V(), slice=ast.Constant(value=i), ctx=ast.Load()) for i in range(star)], keywords=[])
             arg = ast.Starred(value=V(), ctx=ast.Load()) if star else V()
             return ast.Call(func=f, args=[arg], keywords=[])
         return None
@@ -181,6 +239,28 @@ class _Functional(ast.NodeTransformer):
     def visit_Call(self, node):
         self.generic_visit(node)
         d = _dotted(node.func)
+        if isinstance(node.func, ast.Call) and _dotted(node.func.func) in _GetterLocals.GETTERS and len(node.args) == 1 and not node.keywords:
+            # attrgetter("a")(obj) -> obj.a ; attrgetter("a", "b")(obj) -> (obj.a, obj.b) ; methodcaller("m", x)(obj) -> obj.m(x)
+            g = node.func
+            gd = _dotted(g.func)
+            obj = node.args[0]
+            pure = obj
+            while isinstance(pure, ast.Attribute):
+                pure = pure.value
+            if isinstance(pure, ast.Name):
+                if gd.endswith("attrgetter") and g.args and all(isinstance(a, ast.Constant) and isinstance(a.value, str) for a in g.args):
+                    def path(name):
+                        out = copy.deepcopy(obj)
+                        for p_ in name.split("."):
+                            out = ast.Attribute(value=out, attr=p_, ctx=ast.Load())
+                        return out
+                    items = [path(a.value) for a in g.args]
+                    return ast.copy_location(items[0] if len(items) == 1 else ast.Tuple(elts=items, ctx=ast.Load()), node)
+                if gd.endswith("methodcaller") and g.args and isinstance(g.args[0], ast.Constant) and isinstance(g.args[0].value, str):
+                    return ast.copy_location(ast.Call(func=ast.Attribute(value=copy.deepcopy(obj), attr=g.args[0].value, ctx=ast.Load()),
+                                                      args=g.args[1:], keywords=g.keywords), node)
+                if gd.endswith("itemgetter") and len(g.args) == 1:
+                    return ast.copy_location(ast.Subscript(value=copy.deepcopy(obj), slice=g.args[0], ctx=ast.Load()), node)
         if d == "map" and len(node.args) == 2 and not node.keywords:
             v = self._var()
             elt = self._apply(node.args[0], v)
@@ -189,7 +269,12 @@ class _Functional(ast.NodeTransformer):
                     target=ast.Name(id=v, ctx=ast.Store()), iter=node.args[1], ifs=[], is_async=0)]), node)
         if d in ("starmap", "itertools.starmap") and len(node.args) == 2 and not node.keywords:
             v = self._var()
-            elt = self._apply(node.args[0], v, star=True)
+            it = node.args[1]
+            width = True
+            if isinstance(it, ast.Call) and _dotted(it.func) in ("product", "itertools.product", "zip") and it.args and not it.keywords \
+                    and not any(isinstance(a, ast.Starred) for a in it.args) and len(it.args) >= 2:
+                width = len(it.args)
+            elt = self._apply(node.args[0], v, star=width)
             if elt is not None:
                 return ast.copy_location(ast.GeneratorExp(elt=elt, generators=[ast.comprehension(
                     target=ast.Name(id=v, ctx=ast.Store()), iter=node.args[1], ifs=[], is_async=0)]), node)
@@ -207,11 +292,105 @@ class _Functional(ast.NodeTransformer):
         return node
 
 
+class _FuseGenerators(ast.NodeTransformer):
+    """a comprehension over a generator expression is one comprehension (elements flow through one by one either way):
+        [f(t) for t in (g(y) for y in Y if c)]          -> [f(g(y)) for y in Y if c]
+        [e for sub in (h(y) for y in Y) for e in sub]   -> [e for y in Y for e in h(y)]
+    done when the inner element is read once, or is a plain name / attribute chain (no double evaluation);
+    chain.from_iterable(X) -> (e for sub in X for e in sub)"""
+
+    def __init__(self):
+        self.n = 0
+
+    def visit_Call(self, node):
+        self.generic_visit(node)
+        if _dotted(node.func) in ("chain.from_iterable", "itertools.chain.from_iterable") and len(node.args) == 1 and not node.keywords:
+            self.n += 1
+            sub, e = f"chain__s{self.n}", f"chain__e{self.n}"
+            g = ast.GeneratorExp(elt=ast.Name(id=e, ctx=ast.Load()), generators=[
+                ast.comprehension(target=ast.Name(id=sub, ctx=ast.Store()), iter=node.args[0], ifs=[], is_async=0),
+                ast.comprehension(target=ast.Name(id=e, ctx=ast.Store()), iter=ast.Name(id=sub, ctx=ast.Load()), ifs=[], is_async=0)])
+            return self._fuse(ast.copy_location(g, node))
+        return node
+
+    def _fuse(self, node):
+        changed = True
+        while changed:
+            changed = False
+            for gi, g in enumerate(node.generators):
+                inner = g.iter
+                if not (isinstance(inner, ast.GeneratorExp) and isinstance(g.target, ast.Name)):
+                    continue
+                t = g.target.id
+                rest = [node.elt if not isinstance(node, ast.DictComp) else ast.Tuple(elts=[node.key, node.value], ctx=ast.Load())] + list(g.ifs) \
+                    + [x for h in node.generators[gi + 1:] for x in [h.iter] + list(h.ifs)]
+                uses = sum(1 for r in rest for n in ast.walk(r) if isinstance(n, ast.Name) and n.id == t and isinstance(n.ctx, ast.Load))
+                simple = inner.elt
+                while isinstance(simple, ast.Attribute):
+                    simple = simple.value
+                if uses != 1 and not isinstance(simple, ast.Name):
+                    continue
+                # names of the inner generator must not clash with names used in the outer comprehension
+                inner_names = {n.id for h in inner.generators for n in ast.walk(h.target) if isinstance(n, ast.Name)}
+                outer_names = {n.id for r in rest for n in ast.walk(r) if isinstance(n, ast.Name)} | \
+                    {n.id for h in node.generators if h is not g for n in ast.walk(h.target) if isinstance(n, ast.Name)}
+                if inner_names & (outer_names - {t}):
+                    continue
+                ielt = inner.elt
+
+                class Sub(ast.NodeTransformer):
+                    def visit_Name(self, n):
+                        return copy.deepcopy(ielt) if n.id == t and isinstance(n.ctx, ast.Load) else n
+
+                if isinstance(node, ast.DictComp):
+                    node.key, node.value = Sub().visit(node.key), Sub().visit(node.value)
+                else:
+                    node.elt = Sub().visit(node.elt)
+                new_gens = [copy.deepcopy(h) for h in inner.generators]
+                new_gens[-1].ifs = list(new_gens[-1].ifs) + [Sub().visit(c) for c in g.ifs]
+                later = []
+                for h in node.generators[gi + 1:]:
+                    h.iter = Sub().visit(h.iter)
+                    h.ifs = [Sub().visit(c) for c in h.ifs]
+                    later.append(h)
+                node.generators = node.generators[:gi] + new_gens + later
+                changed = True
+                break
+        return node
+
+    def visit_ListComp(self, node):
+        self.generic_visit(node)
+        return self._fuse(node)
+
+    visit_GeneratorExp = visit_SetComp = visit_DictComp = visit_ListComp
+
+
+class _Displays(ast.NodeTransformer):
+    """list(<generator expression>) is the list comprehension, set(...) the set comprehension"""
+
+    def visit_Call(self, node):
+        self.generic_visit(node)
+        if isinstance(node.func, ast.Name) and node.func.id in ("list", "set") and len(node.args) == 1 and not node.keywords \
+                and isinstance(node.args[0], ast.GeneratorExp):
+            g = node.args[0]
+            cls = ast.ListComp if node.func.id == "list" else ast.SetComp
+            return ast.copy_location(cls(elt=g.elt, generators=g.generators), node)
+        return node
+
+
 def desugar(tree):
     if any(isinstance(n, (ast.Match, ast.NamedExpr)) for n in ast.walk(tree)):
         tree = _Desugar().visit(tree)
     names = {_dotted(n.func) for n in ast.walk(tree) if isinstance(n, ast.Call)}
-    if names & {"map", "starmap", "itertools.starmap", "suppress", "contextlib.suppress"}:
+    if names & set(_GetterLocals.GETTERS):
+        tree = _GetterLocals().visit(tree)
+    if names & ({"map", "starmap", "itertools.starmap", "suppress", "contextlib.suppress"} | set(_GetterLocals.GETTERS)):
         tree = _Functional().visit(tree)
+    if names & {"map", "starmap", "itertools.starmap", "chain.from_iterable", "itertools.chain.from_iterable"} \
+            or any(isinstance(n, ast.comprehension) and isinstance(n.iter, ast.GeneratorExp) for n in ast.walk(tree)):
+        tree = _FuseGenerators().visit(tree)
+    if any(isinstance(n, ast.Call) and isinstance(n.func, ast.Name) and n.func.id in ("list", "set") and len(n.args) == 1
+           and isinstance(n.args[0], ast.GeneratorExp) for n in ast.walk(tree)):
+        tree = _Displays().visit(tree)
     ast.fix_missing_locations(tree)
     return tree
